@@ -28,7 +28,7 @@ PY = os.environ.get("SMG_PY", "/venv/bin/python")
 NSHARDS = int(os.environ.get("SMG_SHARDS", "16"))
 
 
-class CaseTimeout(Exception):
+class CaseTimeout(BaseException):
     pass
 
 
@@ -146,6 +146,8 @@ def run_cases(ctx: Ctx, mod, cases):
         except CaseTimeout:
             ctx.inconclusive_cases += 1
             ctx.count("case_timeout")
+            if len(ctx.extra.setdefault("timeout_cases", [])) < 2:
+                ctx.extra["timeout_cases"].append(case)
         except TimeoutError:
             ctx.inconclusive_cases += 1
             ctx.count("reference_budget_exhausted")
